@@ -232,21 +232,30 @@ def compare_streams(ctx, fnd, stats, fam, cases_iter, out_py, out_rs, origin, sa
         elif a[0] == "!" or b[0] == "!":
             look.append(i)
     stats["cases"] += len(lp)
-    want_sample = sample_to is not None
-    if not look and not want_sample:
-        return len(lp)
     wanted = set(look)
     dpy, drs = read_details(out_py, wanted), read_details(out_rs, wanted)
-    for i, (inp, exp) in enumerate(cases_iter):
-        if want_sample and lp[i][1] == "n" and lp[i][0] == "=":
-            sample_to({"family": fam, "call": render_input(fam, inp), "py": json.loads(lp[i][3:]), "rs": json.loads(lr[i][3:]),
-                       "reference": L.expected(fam, inp, exp)})
-            want_sample = False
-        if i in wanted:
-            judge_case(ctx, fnd, stats, fam, inp, exp, json.loads(lp[i][3:]), json.loads(lr[i][3:]),
-                       dpy.get(i, {}), drs.get(i, {}), origin)
-        if not want_sample and i >= (max(look) if look else -1):
-            break
+    known = {}
+    for i in look:
+        c = dpy.get(i, {}).pop("case", None) or drs.get(i, {}).pop("case", None)
+        drs.get(i, {}).pop("case", None)
+        if c is not None:
+            known[i] = c
+    need = wanted - set(known)
+    want_sample = sample_to is not None
+    if need or want_sample:
+        last = max(need) if need else -1
+        for i, (inp, exp) in enumerate(cases_iter):
+            if want_sample and lp[i][:2] == "=n" and (i > 200 or L.case_size(inp) > 40):
+                sample_to({"family": fam, "call": render_input(fam, inp), "py": json.loads(lp[i][3:]), "rs": json.loads(lr[i][3:]),
+                           "reference": L.expected(fam, inp, exp)})
+                want_sample = False
+            if i in need:
+                known[i] = [inp, exp]
+            if i >= last and (not want_sample or i > 5000):
+                break
+    for i in look:
+        inp, exp = known[i]
+        judge_case(ctx, fnd, stats, fam, inp, exp, json.loads(lp[i][3:]), json.loads(lr[i][3:]), dpy.get(i, {}), drs.get(i, {}), origin)
     return len(lp)
 
 
@@ -312,7 +321,7 @@ def phase_enum(ctx, fnd):
         for i in range(stats["nontrivial"]):
             ctx.nontrivial((cfg, i))
         for s in samples or []:
-            ctx.sample(s, limit=8)
+            ctx.sample(s, limit=30)
         per_family[cfg] = {k: v for k, v in stats.items() if k != "drift"}
         if stats["drift"]:
             per_family[cfg]["agree_with_each_other_not_with_reference"] = stats["drift"]
@@ -586,6 +595,7 @@ def phase_traces(ctx, fnd):
                                 "py_details": det["py"].get(i, {}), "rs_details": det["rs"].get(i, {}),
                                 "tlc_verdict": v, "call": render_input(fam, inp), "origin": "recorded execution"}, L.case_size(inp))
     ctx.cov["recorded"] = per
+    git_validates_parse_reference(ctx, all_cases, verdicts, obs)
     if stats["drift"]:
         ctx.cov["recorded_agree_with_each_other_not_with_reference"] = stats["drift"]
 
@@ -631,6 +641,73 @@ def phase_big_pairs(ctx, fnd):
                     {"kind": "case", "fam": "deltatrace", "inp": dcases[k]["inp"] if len(dcases[k]["inp"][0]) < 8192 else [name, enc], "exp": None,
                      "variant": 0, "py": py, "rs": rs, "call": f"apply_delta(<{name}>, <delta of {enc}>)", "origin": "large pair"}, len(t))
     ctx.cov["large_pairs"] = {"pairs": [n for n, _, _ in pairs], "deltas_cross_decoded": len(dcases)}
+
+
+def git_validates_parse_reference(ctx, all_cases, verdicts, obs):
+    """C git as third opinion on the *specification*: on a sample of the recorded tree payloads (20-byte
+    ids) `git ls-tree` must accept exactly what ParseTree accepts and list the same names and ids --
+    outside the three documented differences (git refuses empty names, silently wraps modes beyond 32
+    bits, refuses the '+' both dulwich parsers accept).  A disagreement is a bug of the specification
+    (machinery failure), never a verdict on dulwich."""
+    if not git_available():
+        ctx.assumptions.append("git not available: ParseTree not compared with git ls-tree")
+        return
+    todo = []
+    for i, c in enumerate(all_cases):
+        if c["fam"] != "pttrace" or c["inp"][1] != 20:
+            continue
+        v = verdicts[i + 1]
+        st, why, _, plus = v[3][0]
+        pyref, rsref = v[7][0], v[8][0]
+        if st == "err" and why in ("no-space", "mode-empty", "mode-char", "no-nul", "id-truncated"):
+            todo.append((c["inp"][0], None))
+        elif st == "ok" and plus == 0 and (pyref or rsref):
+            ents = (obs["py"] if pyref else obs["rs"])[i][0][1]
+            if ents and all(n for n, _, _ in ents):
+                todo.append((c["inp"][0], [(n, s_) for n, _, s_ in ents]))
+    todo = todo[:ctx.pick(150, 1200)]
+    if not todo:
+        return
+    d = ctx.tmpdir("git")
+    env = dict(os.environ, GIT_CONFIG_NOSYSTEM="1", HOME=d, GIT_CONFIG_GLOBAL="/dev/null")
+    repo = os.path.join(d, "r.git")
+    subprocess.run(["git", "init", "-q", "--bare", repo], check=True, env=env, capture_output=True)
+    paths = []
+    for k, (hx, _) in enumerate(todo):
+        p = os.path.join(d, f"t{k}")
+        with open(p, "wb") as f:
+            f.write(bytes.fromhex(hx))
+        paths.append(p)
+    r = subprocess.run(["git", f"--git-dir={repo}", "hash-object", "-t", "tree", "-w", "--literally", "--stdin-paths"],
+                       input="\n".join(paths).encode(), capture_output=True, env=env)
+    shas = r.stdout.decode().split()
+    if r.returncode != 0 or len(shas) != len(todo):
+        raise MachineryError(f"git hash-object failed: {r.stderr[-300:]!r}")
+
+    def ls(sha):
+        q = subprocess.run(["git", f"--git-dir={repo}", "ls-tree", "-z", sha], capture_output=True, env=env)
+        if q.returncode != 0:
+            return None
+        out = []
+        for rec in q.stdout.split(b"\0"):
+            if rec:
+                meta, _, name = rec.partition(b"\t")
+                out.append((name.hex(), meta.split()[2].decode()))
+        return out
+    with cf.ThreadPoolExecutor(max_workers=6) as ex:
+        got = list(ex.map(ls, shas))
+    acc = rej = 0
+    for (hx, want), g in zip(todo, got):
+        if want is None:
+            rej += 1
+            if g is not None:
+                raise MachineryError(f"ParseTree refuses {bytes.fromhex(hx)!r}, git ls-tree lists {g}")
+        else:
+            acc += 1
+            if g != want:
+                raise MachineryError(f"ParseTree accepts {bytes.fromhex(hx)!r} as {want}, git ls-tree says {g}")
+    ctx.cov["git_third_opinion_on_ParseTree"] = {"reference_accepts_git_lists_same_names_and_ids": acc, "reference_refuses_git_refuses": rej}
+    shutil.rmtree(d, ignore_errors=True)
 
 
 def ref_kind(fam, summ, var, py, rs, pyok, rsok):
@@ -868,6 +945,15 @@ def replay(ctx, path):
         fnd.flush()
         return 1 if ctx.violations else 0
     fam, inp = obj["fam"], obj["inp"]
+    if obj.get("origin") == "large pair" and (len(inp) != 2 or not all(isinstance(x, str) for x in inp) or inp[1] in MODES):
+        # the pair is too large for the replay file: regenerate the structured large pairs
+        ctx.seed = obj.get("seed", ctx.seed)
+        phase_big_pairs(ctx, fnd)
+        for sig, (_, what, rep, n) in sorted(fnd.best.items()):
+            print(f"  STILL DIFFERENT: {sig}\n    {what}")
+        if not fnd.best:
+            print("  every large pair round-trips through all encoder x decoder pairings now")
+        return 1 if fnd.best else 0
     print(f"  call: {render_input(fam, inp)}")
     tfam, tinp = to_trace_case(fam, inp)
     obs, det = run_cases_both(ctx, [{"fam": tfam, "inp": tinp}], 1)
